@@ -31,10 +31,10 @@ theorem DiskOK.restrict_issued {cfg : Cfg} {d : Disk} {must issued : List Grp} (
   · obtain ⟨x, y⟩ := hok.jseq p hp g hg
     exact ⟨x, List.mem_filter.2 ⟨y, p2 p hp g hg⟩⟩
 
-/-- while a transaction is open and its commit record has not been written, everything on the storage lies at or
-    below `db.seq` -/
+/-- while a transaction is open and its commit record has not been written (also not by an append that reported an
+    error: `St.limbo`), everything on the storage lies at or below `db.seq` -/
 theorem Inv.tr_storage_bound {cfg : Cfg} {s : St} {d : Disk} (h : Inv cfg s d) {g : Grp} (hg : s.tr = some g)
-    (hjob : Holds' s.job fun j => j.pc.beforeCommit = true) :
+    (hjob : Holds' s.job fun j => j.pc.beforeCommit = true) (hl : s.limbo = none) :
     AllViews cfg d fun v => (∀ x ∈ liveGrps d v, x.fin ≤ s.seq + 1) ∧
       ∀ p ∈ relJournals d v.jn, ∀ x ∈ p.2.all, x.fin ≤ s.seq + 1 := by
   have hph := h.tr_running hg
@@ -47,7 +47,7 @@ theorem Inv.tr_storage_bound {cfg : Cfg} {s : St} {d : Disk} (h : Inv cfg s d) {
   have hntw : ¬ TrWindow s := by
     cases hj : s.job with
     | none => exact not_trWindow_of_nojob hj
-    | some j => rw [hj] at hjob; exact not_trWindow_of_bc hj hjob
+    | some j => rw [hj] at hjob; exact not_trWindow_of_bc hj hjob hl
   have hold := rel_groups_old h.disk hrun (by rw [hw]; rfl) (by rw [hmem]; intro x hx; cases hx)
   intro mf hc k hk v hv
   refine ⟨fun x hx => ?_, hold mf hc k hk v hv⟩
@@ -59,7 +59,7 @@ theorem Inv.tr_storage_bound {cfg : Cfg} {s : St} {d : Disk} (h : Inv cfg s d) {
 /-- … so no crash image delivers an entry of the open transaction -/
 theorem Inv.tr_invisible {cfg : Cfg} (hn : cfg.failedRecordLeavesNoTrace = true) {s : St} {d : Disk}
     (h : Inv cfg s d) {g : Grp} (hg : s.tr = some g)
-    (hjob : Holds' s.job fun j => j.pc.beforeCommit = true) (ch : CrashChoice) :
+    (hjob : Holds' s.job fun j => j.pc.beforeCommit = true) (hl : s.limbo = none) (ch : CrashChoice) :
     ∃ r, recoverR cfg (crashWith ch d) = .ok r ∧ GoodOpen (must s) (issuedGrps s) r ∧
       ∀ x ∈ r.grps, x.fin ≤ g.seq := by
   have hph := h.tr_running hg
@@ -67,7 +67,7 @@ theorem Inv.tr_invisible {cfg : Cfg} (hn : cfg.failedRecordLeavesNoTrace = true)
   unfold TrOK at htr
   rw [hg] at htr
   have hgs : g.seq = s.seq + 1 := htr.2.2.2.1
-  have hb := h.tr_storage_bound hg hjob
+  have hb := h.tr_storage_bound hg hjob hl
   have hd := h.disk.restrict_issued (fun x => decide (x.fin ≤ s.seq + 1)) (fun mf hc k hk v hv =>
     ⟨fun x hx => by simpa using (hb mf hc k hk v hv).1 x hx,
      fun p hp x hx => by simpa using (hb mf hc k hk v hv).2 p hp x hx⟩)
